@@ -93,7 +93,7 @@ def input_dialects(fps):
 
 
 def norm_name(n):
-    return None if n == NULL else n.encode().hex()
+    return None if n == NULL else toks.name_str(n).encode().hex()
 
 
 def expect_struct(fps, tv):
@@ -350,6 +350,10 @@ def check_c11(prop, tier):
                 for oc, nc, body in ((1, 1, b'-a\n+b\n'), (0, 1, b'+b\n'), (1, 0, b'-a\n'), (2, 1, b' c\n-a\n+b\n'), (3, 3, b' c\n c\n-zz\n+b\n'), (3, 3, b' c\n-zz\n+b\n c\n'),
                                      (2, 2, b'-zz\n+b\n c\n')):
                     add(b'--- a/x\n+++ b/x\n@@ -%d,%d +%d,%d @@\n' % (o, oc, n_, nc) + body, 'numeric')
+        # every byte value next to the digits of a hunk header (a "digit" is an ASCII digit and nothing else)
+        for b in range(256):
+            for form in (b'@@ -1%s,1 +1,1 @@\n', b'@@ -%s1,1 +1,1 @@\n', b'@@ -1,1%s +1,1 @@\n', b'@@ -1,1 +1%s,1 @@\n', b'@@ -1,1 +1,%s1 @@\n'):
+                add(b'--- a/x\n+++ b/x\n' + form % bytes([b]) + b'-a\n+b\n', 'numeric')
         # truncation at every byte offset and seeded byte mutations of a sample of the token renderings
         sample = rnd.sample(range(len(cases)), min(len(cases), 1500 if tier == 'quick' else 12000))
         for ci in sample:
@@ -363,7 +367,9 @@ def check_c11(prop, tier):
                 for _ in range(rnd.randint(1, 3)):
                     op = rnd.random()
                     at = rnd.randrange(len(b))
-                    if op < 0.4:
+                    if op < 0.2:
+                        b[at] = rnd.randrange(256)
+                    elif op < 0.4:
                         b[at] = rnd.choice(b'\n\\ +-@"\x00\xff0123456789,')
                     elif op < 0.7:
                         del b[at]
